@@ -90,7 +90,7 @@ class Line:
 
     def __init__(self, shape, frame, coordnot='bare', sizenot='', anglenot='', sep='paren_comma', namecase='lower',
                  framecase='lower', sign='', include=None, props=None, latneg=False, text_style='brace', text='hello world',
-                 size_base=None, angle=None, odd_text=False):
+                 size_base=None, angle=None, odd_text=False, latzero=False):
         self.shape, self.frame = shape, frame
         self.coordnot, self.sizenot, self.anglenot = coordnot, sizenot, anglenot
         self.sep, self.namecase, self.framecase = sep, namecase, framecase
@@ -101,6 +101,7 @@ class Line:
         self.size_base = size_base
         self.angle = 33.5 if angle is None else angle
         self.odd_text = odd_text       # "# text(x,y) text={...}" spelling
+        self.latzero = latzero         # |latitude| < 1 degree: the sign sits on a zero degree field (-0:23:28.04)
 
     # ---- numbers -----------------------------------------------------------
     def _coords(self):
@@ -117,7 +118,7 @@ class Line:
             else:
                 if self.coordnot in ('colon', 'hms'):
                     lonc = (LON_SEX[0], LON_SEX[1] + k, LON_SEX[2])
-                    latc = (LAT_SEX[0], LAT_SEX[1] + 2 * k, LAT_SEX[2])
+                    latc = (0 if self.latzero else LAT_SEX[0], LAT_SEX[1] + 2 * k, LAT_SEX[2])
                     hours = (self.coordnot == 'hms') or (self.frame.lower() in EQUATORIAL)
                     lon = sex_value(lonc) * (15.0 if hours else 1.0)
                     lat = sex_value(latc) * (-1.0 if self.latneg else 1.0)
@@ -125,7 +126,7 @@ class Line:
                     tb = render_coord('sky', 'lat', None, self.coordnot, latc, neg=self.latneg)
                 else:
                     lon = LON_DEG + OFFS[k][0]
-                    lat = (LAT_DEG + OFFS[k][1])
+                    lat = ((LAT_DEG - 12.0 if self.latzero else LAT_DEG) + OFFS[k][1])
                     ta = render_coord('sky', 'lon', lon, self.coordnot)
                     tb = render_coord('sky', 'lat', lat, self.coordnot, neg=self.latneg)
                     if self.latneg:
